@@ -846,8 +846,51 @@ fn case_history_define(case: &str) -> Option<Fail> {
     }
 }
 
+/// formulas evaluated in ONE environment whose names are numbered differently (`a | b` then `b | a`): symbols with the same
+/// id are the same variable whatever their name, so the second evaluation must find every node of the first one in the
+/// table (one shared node per structure: the table does not grow, the results are the same allocation)
+fn case_history_names(case: &str) -> Option<Fail> {
+    tick();
+    let r = quiet(|| {
+        let pairs = [("a | b", "b | a"), ("(x & y) ^ z", "(p & q) ^ r"), ("[a, b, c] = 1", "[c, a, b] = 1"), ("exists q # (q & a) | b", "exists z # (z & x) | y")];
+        for (f1, f2) in pairs {
+            let env = Rc::new(BDDEnv::<NamedSymbol>::new());
+            let p1 = ParsedFormula::new_with_env(Rc::clone(&env), &mut f1.as_bytes(), None).expect("parse");
+            let r1 = p1.eval();
+            let size1 = env.size();
+            let p2 = ParsedFormula::new_with_env(Rc::clone(&env), &mut f2.as_bytes(), None).expect("parse");
+            let r2 = p2.eval();
+            let size2 = env.size();
+            if r1 != r2 {
+                return Some(format!("`{f1}` and `{f2}` number their names alike but evaluate to different structures: {r1:?} vs {r2:?}"));
+            }
+            if size2 != size1 {
+                return Some(format!("evaluating `{f2}` after `{f1}` in one environment grew the node table from {size1} to {size2} entries although every node already existed"));
+            }
+            if !Rc::ptr_eq(&r1, &r2) {
+                return Some(format!("`{f1}` and `{f2}` in one environment: structurally equal results are two allocations"));
+            }
+            let fresh = Rc::new(BDDEnv::<NamedSymbol>::new());
+            let p3 = ParsedFormula::new_with_env(Rc::clone(&fresh), &mut f2.as_bytes(), None).expect("parse");
+            let _ = p3.eval();
+            if fresh.size() != size2 {
+                return Some(format!("node table after `{f1}`; `{f2}` has {size2} entries, a fresh environment evaluating `{f2}` has {}", fresh.size()));
+            }
+        }
+        None
+    });
+    match r {
+        Err(p) => Some(Fail { case: case.into(), expected: "no panic".into(), actual: p }),
+        Ok(Some(e)) => Some(Fail { case: case.into(), expected: "one shared node per structure, whatever the names".into(), actual: e }),
+        Ok(None) => None,
+    }
+}
+
 fn search_history(budget: usize, seed: u64) -> Option<Fail> {
     if let Some(f) = case_history("1,3,5|1|0|1") {
+        return Some(f);
+    }
+    if let Some(f) = case_history_names("names") {
         return Some(f);
     }
     if let Some(f) = case_history_define("define") {
@@ -1799,7 +1842,11 @@ fn case_index(case: &str) -> Option<Fail> {
         .split(',')
         .enumerate()
         .filter(|(_, n)| !n.is_empty() && *n != "_")
-        .map(|(i, n)| NamedSymbol { name: Rc::new(n.to_string()), id: i })
+        .map(|(i, n)| match n.split_once(':') {
+            // `name:id` = an API ordering vector with explicit (possibly descending / gapped) ids
+            Some((nm, id)) => NamedSymbol { name: Rc::new(nm.to_string()), id: id.parse().unwrap_or(i) },
+            None => NamedSymbol { name: Rc::new(n.to_string()), id: i },
+        })
         .collect();
     let base = quiet(|| ParsedFormula::new(&mut src.as_bytes(), None).map(|p| (p.eval(), p)));
     let with = quiet(|| ParsedFormula::new(&mut src.as_bytes(), Some(ordering.clone())).map(|p| (p.eval(), p)));
@@ -1835,7 +1882,8 @@ fn case_index(case: &str) -> Option<Fail> {
 
 fn search_index(budget: usize, seed: u64) -> Option<Fail> {
     let forms = ["a", "a & b", "b | a", "exists b # (a & b) | c", "c ^ a", "[a, c] = 1", "forall a # a | b", "lfp X # (a | X)"];
-    let ords = ["x,a", "a", "b,a", "c,b,a", "x,y,z", "a,x,b,y,c", "_,_,a", "b,_,a,_,c", "X,a", "a,a,b", "c"];
+    let ords = ["x,a", "a", "b,a", "c,b,a", "x,y,z", "a,x,b,y,c", "_,_,a", "b,_,a,_,c", "X,a", "a,a,b", "c",
+        "b:1,a:0", "x:5,y:3", "c:4,a:2,b:0", "a:7,x:1", "b:3,c:0"];
     for f in forms {
         for o in ords {
             if let Some(x) = case_index(&format!("{o}|{f}")) {
@@ -1851,6 +1899,26 @@ fn search_index(budget: usize, seed: u64) -> Option<Fail> {
         let o: Vec<&str> = (0..rng.below(6)).map(|_| pool[rng.below(pool.len())]).collect();
         if let Some(x) = case_index(&format!("{}|{src}", o.join(","))) {
             return Some(x);
+        }
+        if i % 2 == 0 {
+            // the same names as an API vector with distinct ids in a random (not ascending) order
+            let mut names: Vec<&str> = vec![];
+            for n in &o {
+                if *n != "_" && !names.contains(n) {
+                    names.push(n);
+                }
+            }
+            let mut ids: Vec<usize> = (0..names.len()).map(|k| k * (1 + i % 3)).collect();
+            for k in (1..ids.len()).rev() {
+                let j = rng.below(k + 1);
+                ids.swap(k, j);
+            }
+            let spec: Vec<String> = names.iter().zip(ids.iter()).map(|(n, d)| format!("{n}:{d}")).collect();
+            if !spec.is_empty() {
+                if let Some(x) = case_index(&format!("{}|{src}", spec.join(","))) {
+                    return Some(x);
+                }
+            }
         }
     }
     None
@@ -1929,7 +1997,7 @@ fn main() {
             "formula" => case_formula(c),
             "parse" => case_parse(c),
             "lex" => case_lex(c),
-            "history" => if c == "big" { case_history_big(c) } else if c == "define" { case_history_define(c) } else { case_history(c) },
+            "history" => if c == "big" { case_history_big(c) } else if c == "define" { case_history_define(c) } else if c == "names" { case_history_names(c) } else { case_history(c) },
             "index" => case_index(c),
             _ => std::process::exit(2),
         }
